@@ -256,7 +256,15 @@ Definition mw_write_string (c:wcfg) (p:bytes) (s:wst) : option werror * wst :=
   | Some _ => copy_loop (loop_fuel c p) c p s
   end.
 
-(* messageWriter.ReadFrom(r): r yields the chunks (each Read returns min(chunk, room)) then io.EOF *)
+(* w.c.writeBuf[w.pos] = b; w.pos++ on the current message writer *)
+Definition put_byte (b:N) (s:wst) : wst :=
+  match cur s with
+  | Some m => s <| cur := Some (m <| m_buf := m_buf m ++ [b] |>) |>
+  | None => s
+  end.
+
+(* messageWriter.ReadFrom(r): r yields the chunks (each Read returns min(chunk, room)) then io.EOF;
+   when the buffer is full the Read is a one-byte lookahead (a chunk is consumed piecewise) *)
 Fixpoint read_from (fuel:nat) (c:wcfg) (chunks:list bytes) (s:wst) : option werror * wst :=
   match fuel with
   | O => (None, s <| oracle_short := true |>)
@@ -266,8 +274,29 @@ Fixpoint read_from (fuel:nat) (c:wcfg) (chunks:list bytes) (s:wst) : option werr
     | Some m =>
       let room := cap c - blen (m_buf m) in
       if room =? 0 then
-        let '(e, s) := flush_frame c false [] m s in
-        match e with Some e => (Some e, s) | None => read_from f c chunks s end
+        (* the buffer is full: one byte of lookahead is read from the source; the full buffer
+           is flushed (as a non-final frame) only when a byte arrives, which then starts the
+           fresh buffer; if the source ends instead, nothing is flushed *)
+        match chunks with
+        | [] => (None, s)                               (* Read = (0, io.EOF) *)
+        | [] :: rest =>
+          match rest with
+          | [] => (None, s)                             (* Read = (0, io.EOF) *)
+          | _ => read_from f c rest s                   (* Read = (0, nil): loop *)
+          end
+        | (b :: ch') :: rest =>
+          let '(e, s) := flush_frame c false [] m s in
+          match e with
+          | Some e => (Some e, s)                       (* the lookahead byte is lost *)
+          | None =>
+            let s := put_byte b s in
+            match ch', rest with
+            | [], [] => (None, s)
+            | [], _ => read_from f c rest s
+            | _, _ => read_from f c (ch' :: rest) s
+            end
+          end
+        end
       else
         match chunks with
         | [] => (None, s)
@@ -413,6 +442,9 @@ Definition app_read_from (c:wcfg) (chunks:list bytes) (s:wst) : option werror * 
   | None => (Some WWriteClosed, s)
   | Some id =>
     if app_flate s then (Some WInternal, s)   (* io.Copy falls back to Write calls: not generated *)
+    (* fuel: every iteration of the loop consumes a byte or a chunk of the source (the lookahead
+       included), so length (concat chunks) + length chunks + 1 is enough: Proofs/ReadFromP.v,
+       [read_from_fuel_irrel] *)
     else if is_cur id s then read_from (2 * length (concat chunks) + 2 * length chunks + 4) c chunks s
     else (Some (ended_err id s), s)
   end.
